@@ -423,7 +423,20 @@ def _is_consume(prog, fi: FuncInfo, n: Node) -> bool:
         k = chain_key(n.ast.targets[0])
         if k is not None and k.endswith("._prefix") and k.split(".")[0] == fi.params[0]:
             v = chain_key(n.ast.value)
-            return v is not None and v.endswith("._second_prefix") and v.split(".")[0] == fi.params[0]
+            if v is not None and v.endswith("._second_prefix") and v.split(".")[0] == fi.params[0]:
+                return True
+            if isinstance(n.ast.value, ast.Name) and n.ast.value.id not in fi.params:
+                # a local that holds self._second_prefix (read once at the top of a leaf renderer): the same value as long as
+                # nothing in this function changes the continuation prefix in between
+                org = origins(prog, fi, n.ast.value, n)
+                selfp = fi.params[0]
+                if org == frozenset({("attr", ("param", selfp), "_second_prefix")}):
+                    changes = any(isinstance(x, ast.Attribute) and isinstance(x.ctx, ast.Store) and x.attr == "_second_prefix" for x in ast.walk(fi.node)) \
+                        or any(isinstance(x, (ast.With, ast.AsyncWith)) for x in ast.walk(fi.node))
+                    calls_self = any(isinstance(c, ast.Call) and isinstance(c.func, ast.Attribute) and isinstance(c.func.value, ast.Name) and c.func.value.id == selfp
+                                     and "_second_prefix" in {k.rpartition(".")[2] for k in prog.may_assign(t)}
+                                     for c in ast.walk(fi.node) for t in (prog.resolve_call(fi, c) if isinstance(c, ast.Call) and isinstance(prog.resolve_call(fi, c), list) else []))
+                    return not changes and not calls_self
     return False
 
 
@@ -1028,7 +1041,8 @@ def check_fence_bound(ctx: Ctx) -> None:
         t = prog.resolve_call(code_f, c)
         if isinstance(t, list) and t[0].cls is None and not isinstance(t[0].node, ast.Lambda):  # (any module of the package: helpers get moved)
             cf = t[0]
-            if any(isinstance(x, ast.Call) and call_name(prog, cf, x) in ("re.finditer", "re.findall") for x in walk_no_nested(cf.node)):
+            if any(isinstance(x, ast.Call) and (call_name(prog, cf, x) in ("re.finditer", "re.findall") or (
+                    isinstance(x.func, ast.Attribute) and x.func.attr in ("finditer", "findall"))) for x in ast.walk(cf.node)):
                 scan_calls.append((n, c, cf))
                 repo.func(cf.qual)  # anchor: stays a function in the inlined view
     ctx.require("R-BOUND", "call to the fence-length scan in the code renderer", len(scan_calls), 1)
@@ -1048,18 +1062,41 @@ def check_fence_bound(ctx: Ctx) -> None:
                 loops = [h for h in sflow.cfg.nodes if h.kind == "for" and n in sflow.loop_body_nodes(h)]
                 if loops:
                     acc = (name, n, loops[0])
+    agg = None
     if acc is None:
+        # the same maximum written as an aggregate: acc = max((len(run) for match in re.finditer(...)), default=0)
+        for n in sflow.cfg.nodes:
+            if n.kind == "stmt" and isinstance(n.ast, (ast.Assign, ast.AnnAssign)) and getattr(n.ast, "value", None) is not None:
+                tgt = n.ast.targets[0] if isinstance(n.ast, ast.Assign) else n.ast.target
+                v = n.ast.value
+                if isinstance(tgt, ast.Name) and isinstance(v, ast.Call) and isinstance(v.func, ast.Name) and v.func.id == "max" and len(v.args) == 1 \
+                        and isinstance(v.args[0], (ast.GeneratorExp, ast.ListComp)) and len(v.args[0].generators) == 1:
+                    comp = v.args[0]
+                    dflt = next((k.value for k in v.keywords if k.arg == "default"), None)
+                    if isinstance(comp.elt, ast.Call) and isinstance(comp.elt.func, ast.Name) and comp.elt.func.id == "len" \
+                            and isinstance(dflt, ast.Constant) and isinstance(dflt.value, int) and dflt.value >= 0:
+                        agg = (tgt.id, n, comp)
+    if acc is None and agg is None:
         ctx.ob("R-BOUND", f"{scan_f.qual} :: longest-run accumulator", False,
                "the scan must keep the maximum length over all fence-like runs (acc = max(acc, len(run)) inside the match loop)", where(scan_f, scan_f.node))
         return
-    name, an, loop = acc
-    guards = [b for b, lab in (must_edges(sflow.cfg, loop, an) or set()) if b is not loop]
-    ctx.ob("R-BOUND", f"{scan_f.qual} :: every run updates the maximum", not guards,
-           "the accumulator update must run for every matched run (no filtering condition inside the loop)", where(scan_f, an))
-    len_arg = next(a for a in an.ast.value.args if isinstance(a, ast.Call) and isinstance(a.func, ast.Name) and a.func.id == "len")
-    lsl = prog.slice(scan_f, len_arg, an)
-    ctx.ob("R-BOUND", f"{scan_f.qual} :: measured run is the matched run", any(x.kind == "for" for x in lsl.nodes),
-           "the measured length must be that of the run matched in this iteration", where(scan_f, an))
+    if acc is not None:
+        name, an, loop = acc
+        guards = [b for b, lab in (must_edges(sflow.cfg, loop, an) or set()) if b is not loop]
+        ctx.ob("R-BOUND", f"{scan_f.qual} :: every run updates the maximum", not guards,
+               "the accumulator update must run for every matched run (no filtering condition inside the loop)", where(scan_f, an))
+        len_arg = next(a for a in an.ast.value.args if isinstance(a, ast.Call) and isinstance(a.func, ast.Name) and a.func.id == "len")
+        lsl = prog.slice(scan_f, len_arg, an)
+        ctx.ob("R-BOUND", f"{scan_f.qual} :: measured run is the matched run", any(x.kind == "for" for x in lsl.nodes),
+               "the measured length must be that of the run matched in this iteration", where(scan_f, an))
+    else:
+        name, an, comp = agg
+        gen = comp.generators[0]
+        ctx.ob("R-BOUND", f"{scan_f.qual} :: every run updates the maximum", not gen.ifs,
+               "the maximum must be taken over every matched run (no filtering condition in the generator)", where(scan_f, an))
+        tnames = {x.id for x in ast.walk(gen.target) if isinstance(x, ast.Name)}
+        ctx.ob("R-BOUND", f"{scan_f.qual} :: measured run is the matched run", any(isinstance(x, ast.Name) and x.id in tnames for x in ast.walk(comp.elt)),
+               "the measured length must be that of the run matched in this iteration", where(scan_f, an))
     for r in sflow.cfg.returns():
         k = _lb(sflow, r.ast.value, r, name)
         ctx.ob("R-BOUND", f"{scan_f.qual} :: return > longest run", k is not None and k >= 1,
@@ -1072,6 +1109,21 @@ def check_fence_bound(ctx: Ctx) -> None:
             sl = prog.slice(scan_f, c.args[0], n)
             chars = [p for p in scan_f.params if p in sl.params()]
             multiline = any("MULTILINE" in norm(a) or norm(a) == "re.M" for a in list(c.args[2:]) + [k.value for k in c.keywords])
+            pat_ok = bool(chars) and multiline
+            ctx.ob("R-BOUND", f"{scan_f.qual} :: scan pattern", pat_ok,
+                   f"the scan must look for runs of the *given* fence character at line starts (MULTILINE); pattern depends on params {chars}, multiline={multiline}",
+                   where(scan_f, c))
+        elif isinstance(c.func, ast.Attribute) and c.func.attr in ("finditer", "findall") and call_name(prog, scan_f, c) not in ("re.finditer", "re.findall"):
+            # a compiled pattern: it must still be built from the given fence character, with MULTILINE, wherever it is compiled
+            sl = prog.slice(scan_f, c.func.value, n)
+            chars = [p for p in scan_f.params if p in sl.params()]
+            compilers = [scan_f] + [repo.functions[q] for q in sl.callees() if q in repo.functions]
+            multiline = False
+            for g in compilers:
+                for x in ast.walk(g.node):
+                    if isinstance(x, ast.Call) and call_name(prog, g, x) == "re.compile":
+                        if any("MULTILINE" in norm(a) or norm(a) == "re.M" for a in list(x.args[1:]) + [k.value for k in x.keywords]):
+                            multiline = True
             pat_ok = bool(chars) and multiline
             ctx.ob("R-BOUND", f"{scan_f.qual} :: scan pattern", pat_ok,
                    f"the scan must look for runs of the *given* fence character at line starts (MULTILINE); pattern depends on params {chars}, multiline={multiline}",
@@ -1112,6 +1164,9 @@ def check_fence_bound(ctx: Ctx) -> None:
                 if isinstance(sub, ast.JoinedStr) and any(isinstance(p, ast.FormattedValue) and isinstance(p.value, ast.Name)
                                                            and p.value.id in fence_vars for p in sub.values):
                     uses += 1
+                elif isinstance(sub, ast.BinOp) and isinstance(sub.op, ast.Add) and any(
+                        isinstance(p, ast.Name) and p.id in fence_vars for p in (sub.left, sub.right)):
+                    uses += 1  # prefix + fence
     if fence_vars:
         # (decidable only where the fence is computed and laid out in one function; a helper that returns the fence leaves
         # its use to the caller, which R-FIELD / R-PREFIX cover)
